@@ -40,18 +40,18 @@ ASSUMPTIONS = ["virtual time: timer intervals scaled 1 s -> 20 ms by "
                "execution (context bound 1)"]
 
 APIS = {
-    "compute_dynamics": ["H", "gamma", "A", "cap", "shape"],
+    "compute_dynamics": ["H", "gamma", "A", "cap", "shape", "stdout"],
     "compute_dynamics_with_field": ["H", "eom", "cap", "shape"],
     "state_gradient": ["H", "target", "cap", "shape"],
     "compute_gradient_and_dynamics": ["H", "target"],
-    "tempo": ["H", "gamma", "A"],
+    "tempo": ["H", "gamma", "A", "stdout"],
     "meanfield": ["H", "eom"],
     "pttempo": ["corr"],
     "gibbs": ["j"],
-    "pttebd": ["shape"],
+    "pttebd": ["shape", "float_end", "stdout"],
     "pttebd_multithread": ["shape"],
     "pttebd_multiprocess": ["shape"],
-    "compute_correlations": ["H"],
+    "compute_correlations": ["H", "stdout"],
 }
 PROGRESS = ["silent", "simple", "bar", None]
 EXC_CLASSES = ["Exception", "KeyboardInterrupt", "BaseException"]
@@ -159,7 +159,7 @@ def run_fault(case):
         count_sc = [{"kind": "fault", "id": f"count-{k}", "api": api,
                      "progress": "silent",
                      "fault": {"kind": k, "at": None}} for k in kinds
-                    if k not in ("cap", "shape")]
+                    if k not in ("cap", "shape", "stdout", "float_end")]
         count_sc.append({"kind": "fault", "id": "clean", "api": api,
                          "progress": prog, "fault": None})
         status, err, res = _worker(count_sc, tmpd, "count")
@@ -178,7 +178,11 @@ def run_fault(case):
         # phase 2: enumerate the fault points
         scen = []
         for k in kinds:
-            if k in ("cap", "shape"):
+            if k == "stdout":
+                pts = [1, 2, 3, 5, 8]       # the write that hits a dead pipe
+            elif k == "float_end":
+                pts = [0]
+            elif k in ("cap", "shape"):
                 pts = list(range(0, 5 if k == "cap" else 4))
             else:
                 c = counts.get(k, 0)
@@ -193,7 +197,8 @@ def run_fault(case):
                 # KeyboardInterrupt (Ctrl-C arriving inside the callable) or
                 # a user-defined BaseException - every way a call can raise
                 exc = EXC_CLASSES[(n_at + len(k)) % 3] \
-                    if k not in ("cap", "shape") else None
+                    if k not in ("cap", "shape", "stdout", "float_end") \
+                    else None
                 tag = "" if exc in (None, "Exception") else "!" + exc
                 scen.append({"kind": "fault",
                              "id": f"{api}|{prog}|{k}@{at}{tag}",
